@@ -5,6 +5,7 @@ package sets
 func init() {
 	vxRegister("H20sStr", H20sStr)
 	vxRegister("H20sStrQ", H20sStrQ)
+	vxRegister("H20sStr4", H20sStr4)
 	vxRegister("H20sStrSeq", H20sStrSeq)
 }
 
@@ -48,6 +49,7 @@ const vxSetOps = 15
 // H20sStr: one step of every StringSet operation from an arbitrary state, checked
 // against the mathematical set model through a universally quantified probe.
 func H20sStr()  { h20sStr(3) }
+func H20sStr4() { h20sStr(4) }
 func H20sStrQ() { h20sStr(2) }
 
 func h20sStr(max int) {
